@@ -1082,6 +1082,9 @@ class Emitter:
             # not fan out to every signature-compatible function
             src = '(uint64_t)' + s.expr(c)
             cands = [fn for fn in s.m.memptr_fns if fn in s.m.fns and len(s.m.fns[fn].params) == len(args) and s.m.fns[fn].body is not None]
+            # a member-pointer conversion never changes the return type: address-taken functions returning another type are no targets
+            same_ret = [fn for fn in cands if s.ctype(s.m.fns[fn].ret) == s.ctype(ins.ret)]
+            if same_ret: cands = same_ret
             has_ret = r is not None and not isinstance(ins.ret, VoidTy)
             if has_ret: decls[r] = s.ctype(ins.ret)
             parts = []
